@@ -35,6 +35,9 @@ func evictScripts() []Seq {
 			add(pol, limit, e("set", "k1", "aa", "ex", "100"), e("get", "k1"), e("persist", "k1"), e("set", "k2", "bb", "ex", "100"), e("get", "k2"), e("get", "k2"),
 				e("set", "k3", "cc", "ex", "100"), e("get", "k3"), e("get", "k3"), e("set", "k4", "dd", "ex", "100"), e("get", "k4"), e("get", "k4"), e("set", "k5", "ee"), e("get", "k1"))
 		}
+		// recency / frequency order among volatile keys when a persistent key pushes usage over the limit
+		add(pol, 180, e("set", "k1", "aa", "ex", "100"), e("get", "k1"), e("set", "k2", "bb", "ex", "100"), e("get", "k2"), e("set", "k3", "cc"), e("get", "k1"), e("get", "k2"))
+		add(pol, 180, e("set", "k1", "aa", "ex", "100"), e("get", "k1"), e("get", "k1"), e("set", "k2", "bb", "ex", "100"), e("get", "k2"), e("set", "k3", "cc"), e("get", "k1"), e("get", "k2"))
 		// flush, then continue
 		add(pol, 200, e("set", "k1", "aa"), e("get", "k1"), e("set", "k2", "bb"), e("flushdb"), e("set", "k3", "cc"), e("get", "k3"))
 		add(pol, 1000, e("set", "k1", "aa", "ex", "100"), e("get", "k1"), e("flushdb"), e("set", "k3", "cc"), e("get", "k3"), e("objectfreq", "k3"))
